@@ -207,7 +207,7 @@ def run(ctx):
         if L(mine) != row["stage"]:
             raise core.MachineryError(f"harness encoder disagrees with XorFileR.Stage on {row['plain']}")
     rng = random.Random(ctx.seed * 31 + 9)
-    reps = 4 if ctx.quick else 12
+    reps = 5 if ctx.quick else 15
     shared = io.BytesIO()
     for row in tab["detect"]:
         for rep in range(reps):
@@ -225,7 +225,10 @@ def run(ctx):
             elif row["stub"] == "plain":
                 stub = filler(rng.choice([1, 7, 60, 300]))
             elif row["stub"] == "marker":
-                stub = filler(rng.choice([0, 5, 60, 300])) + b"\xff\xff\xff"
+                # the marker is the END of a run of FF: stubs that end in 4, 5, 7, 8 of them hold overlapping occurrences of the three bytes
+                # (only where the size field settles the question; otherwise an earlier occurrence is the recorded finding of a marker inside the stub)
+                run = [0, 1, 2, 4, 5][rep % 5] if row["sizeok"] is True else 0
+                stub = filler(rng.choice([0, 5, 60, 300])) + b"\xff" * run + b"\xff\xff\xff"
             else:
                 stub = filler(rng.choice([2, 30])) + b"\xff\xff\xff" + filler(rng.choice([1, 40])) + b"\xff\xff\xff"
             nn = bytes(rng.randrange(256) for _ in range(4))
